@@ -13,7 +13,8 @@ TECHNIQUE = ('evaluation-sequence extraction: path-wise order of the generate_ev
              'are wrapped around a node in a loop, in every module; '
              'interpretation of the *source* of tree rewrites / emitters by the checker\'s own evaluator (sa/rules/sC21.MiniPy; nothing of the repository is imported or executed) on complete '
              'families of small abstract inputs (assignment shapes, augmented-assignment targets, and/or trees, keyword call shapes), the rewritten tree / emitted skeleton evaluated by the checker '
-             'under the node semantics C20-ORDER establishes and compared with the language reference applied to the original statement; iteration polarity of code-generation loops over child lists')
+             'under the node semantics C20-ORDER establishes and compared with the language reference applied to the original statement; iteration polarity of code-generation loops over child lists; '
+             'round 8 (rules/s8C20.py): path-complete evaluation of the boolean methods is_simple() / coerce_to_simple() / coerce_to_temp() over their atoms')
 DECIDES = ('C20-ORDER: for each entry of the order table (binary and boolean operators, conditional expression, comparisons incl. cascades, subscription, slicing, dict item, the three '
            'call node classes, cached method calls, f-string value/spec, display * factor, single/cascaded/parallel/augmented assignment, for-in, raise-from, and the let constructs '
            'EvalWithTempExprNode/LetNode) and every subclass: on every code-generation path the earlier operand is asked for its evaluation code before the later one. '
@@ -49,8 +50,14 @@ DECIDES = ('C20-ORDER: for each entry of the order table (binary and boolean ope
            'C20-CHAIN (round 7): for the linked chain of a chained comparison (chain classes are found structurally: one child attribute through which >= 2 non-framework methods call themselves with a compatible '
            'signature; heads = classes that enter the chain with another signature): (A) every chain method that rewrites / evaluates an operand of its own link calls itself on the next link on every completing '
            'path on which a next link may exist; (C) an operand that a link (or the head) asks for its evaluation code and also hands to the next link is made simple (coerce_to_simple / coerce_to_temp) in a '
-           'method that is applied to the chain, under no stronger condition than "there is a next link" (or "not simple yet").')
-NOT_DECIDED = ('C20-BATCH: dict displays (DictNode and the pairs inlined by MergedDictNode are filled pair by pair on the unmodified tree: FINDING_1 of session J5, rule part C20-BATCH-DICT unregistered); operations the generator does not '
+           'method that is applied to the chain, under no stronger condition than "there is a next link" (or "not simple yet"). '
+           'C20-SIMPLE (round 8): the is_simple() contract behind every coerce_to_simple() consumer (chained assignment / comparison, and/or operands, slice bounds, clones): for every expression node class '
+           'of ExprNodes.py / UtilNodes.py and every operand in `subexprs` whose result() the class pastes into its own result expression (calculate_result_code / result, helpers inlined; 52 class x operand '
+           'pairs, 8 classes with an is_simple() of their own): over ALL valuations of the tests is_simple() makes (MRO-resolved, self methods and result_in_temp() inlined, aliases followed) there is none with '
+           'is_simple() true, the node not in a temporary, the operand present and neither <operand>.is_simple() nor <operand>.result_in_temp() established; and ExprNode.coerce_to_simple / every coerce_to_temp '
+           'return the node itself only on paths where is_simple() / result_in_temp() (evaluated after the operand coercions the method performed) holds for every valuation.')
+NOT_DECIDED = ('C20-SIMPLE: that every consumer which refers to an operand more than once asks for coerce_to_simple (C20-PASTE / C20-CHAIN decide that for their classes); CloneNode.arg and other references outside `subexprs`; classes whose is_simple() answers True and whose result is a cached C name / constant are accepted because they paste no operand; nodes that are simple by an argument outside the node (NameNode of a C global modified by a call in between). '
+               'C20-BATCH: dict displays (DictNode and the pairs inlined by MergedDictNode are filled pair by pair on the unmodified tree: FINDING_1 of session J5, rule part C20-BATCH-DICT unregistered); operations the generator does not '
                'declare fallible; loops outside ExprNodes.py. C20-CHAIN: a chain method whose only recursive call was removed and that the head calls on itself (CmpNode.coerce_operands_to) is no longer recognisable as one; '
                'whether coerce_to_simple really yields a simple node. '
                'assignment / call / target shapes outside the families of C20-REWRITE, C20-INPLACE, C20-KWMAP (longer chains, deeper nesting, string unpacking, C struct targets); the relative order of '
@@ -143,7 +150,14 @@ MUTATIONS += [      # seventh round (session J5): patches and verdicts in /verif
     ('Cython/Compiler/ExprNodes.py', 'head no longer calls cascade.coerce_cascaded_operands_to_temp / no longer makes operand2 simple; shared operand made simple only for Python objects / only when the next link has a successor', 'C20-CHAIN <class>:operand2:shared-simple'),
     ('Cython/Compiler/ExprNodes.py', 'CmpNode.coerce_operands_to without the recursion', 'MISSED (see NOT_DECIDED)'),
 ]
+MUTATIONS += [      # eighth round (session K4): patches and verdicts in /verif/mutants/C20/k4-*
+    ('Cython/Compiler/ExprNodes.py', 'SEED C20l: IndexNode.is_simple() type-first rewrite that loses self.index.is_simple(); variants: base dropped instead, TypecastNode / AttributeNode / _TempModifierNode / '
+     'MemoryViewSliceNode (no-op slice) answer simple without their operand, a new AmpersandNode.is_simple()', 'C20-SIMPLE <class>:<operand>:simple-without-operand'),
+    ('Cython/Compiler/ExprNodes.py', 'ExprNode.coerce_to_simple returns every non-object C value unchanged; ExprNode.coerce_to_temp with the test inverted', 'C20-SIMPLE ExprNode.coerce_to_*:returns-self'),
+]
 SILENT_EDITS = [
+    'round 8: IndexNode.is_simple type-first with early returns and a local alias (index test kept); AttributeNode.is_simple with alias / `is None` / early returns; coerce_to_simple negated with early return; '
+    'TypecastNode.is_simple through a helper method with an is_temp short cut',
     'SetNode: two loops with renamed locals / enumerate / text in a local; the two loops in two helper methods; disposal in a third loop',
     'coerce_cascaded_operands_to_temp: local alias of the link + early return; `if not operand2.is_simple(): coerce_to_temp`; head: the coercion lines in a helper method',   # behaviour-preserving, no new violation
     "DictItemNode: subexprs = ['value', 'key'] (its explicit generate_evaluation_code decides the order)",
@@ -164,7 +178,7 @@ SILENT_EDITS = [
 # (`f() < g() < h()` with cdef noexcept functions logged g, f, h) - repaired in /repo (cdf5a6519), the rule is registered.
 def run(ctx):
     from ..rules import flatpar
-    from ..rules import sC20, pC01, dD5, s7C20
+    from ..rules import sC20, pC01, dD5, s7C20, s8C20, dD12
     return [pC20.rule_order(ctx), pC20.rule_once(ctx), pC20.rule_let_order(ctx), pC20.rule_drop(ctx), flatpar.rule_flat(ctx),
             sC20.rule_paste(ctx), sC20.rule_stack(ctx), sC20.rule_hoist(ctx),
             sC20.rule_rewrite(ctx, 'main', floor=200), sC20.rule_inplace(ctx, 'main', floor=10), sC20.rule_short(ctx), sC20.rule_listdir(ctx), sC20.rule_kwmap(ctx, 'main', floor=150),
@@ -172,7 +186,9 @@ def run(ctx):
             pC01.rule_inplace(ctx, pending=True, floor=0, tolerant=True),
             dD5.rule_repaste(ctx), dD5.rule_errconv(ctx), dD5.rule_reuse(ctx),
             s7C20.rule_batch(ctx, 'main', floor=9), s7C20.rule_chain(ctx, floor=5),      # round 7 (session J5)
-            s7C20.rule_batch(ctx, 'dict')]           # C20-BATCH-DICT: known finding K19
+            s7C20.rule_batch(ctx, 'dict'),           # C20-BATCH-DICT: known finding K19
+            s8C20.rule_simple(ctx, floor=44, override_floor=7),      # round 8 (session K4)
+            dD12.rule_snapshot(ctx)]     # C20-SNAPSHOT (rules/dD12.py), armed after the repair 597ac5015
     # known finding K19 (FINDING_1 of session J5): s7C20.rule_batch(ctx, 'dict') -> C20-BATCH-DICT reports ExprNodes.DictNode.generate_evaluation_code:key_value_pairs and
     #   ExprNodes.MergedDictNode.generate_evaluation_code:keyword_args[*].key_value_pairs on the unmodified tree: `{f(1): 1, []: 2, f(3): 3}` stops before f(3) (CPython evaluates all pairs, then raises).
     # round 6 (rules/dD5.py), armed after the repairs 08e5ac73c, ca5f2514f, 64585f1af       # C01-INPLACE-NAME (known finding K14), shared with C01
